@@ -169,6 +169,8 @@ open Rdest Rdest.Wire Rdest.Swarm
 def propPred (prop : String) (mode : String) (tr : Trace) : Option String :=
   let expected : Option Bytes := if mode.startsWith "out:" then parseHex (mode.drop 4).toString else none
   match prop with
+  | "C11" => if P11 tr then none else some "P11-have-announcements"
+  | "C01" => if P01 tr then none else some "P01-only-verified-data-stored"
   | "C10" => if P10 Rdest.Gen.PIECE_BLOCK_SIZE tr then none else some "P10-request-tiling"
   | "C09" => if P09 Rdest.Gen.PIECE_BLOCK_SIZE tr then none else some "P09-upload-discipline"
   | "C08" => if P08 ourInfoHash ourId expected tr then none else some "P08-handshake-gate"
